@@ -455,6 +455,16 @@ func (tamperEngine) run(ctx *simrt.Ctx) *simrt.Violation {
 		if sig == "unattributed" && saw["K2"] {
 			sig = "after-invalid-orphan"
 		}
+		if sig == "unattributed" {
+			// a same-header copy that waited in the orphan pool is as invalid an orphan
+			// as a header-corrupted one: its failure drops the valid siblings waiting
+			// under the same parent (same recorded finding)
+			for _, cf := range copyFirst {
+				if strings.HasPrefix(cf, "orphan/") {
+					sig = "after-invalid-orphan"
+				}
+			}
+		}
 		for _, b := range best.Chain() {
 			if h, err := sut.API.GetBlockHash(&types.ReqInt{Height: b.Height}); err != nil || !bytes.Equal(h.Hash, b.Hash) {
 				ok, msg := Deliver(sut, b.Block, 0, "peerA")
